@@ -95,8 +95,12 @@ class Fn:
         if isinstance(s, (ast.Assign, ast.AnnAssign)):
             tgt = s.targets[0] if isinstance(s, ast.Assign) and len(s.targets) == 1 else getattr(s, "target", None)
             if isinstance(tgt, ast.Subscript) and dotted(tgt.value) is not None and "%s[]=" % dotted(tgt.value) in rules:
-                var, t = rules["%s[]=" % dotted(tgt.value)]
-                return var, (lambda: t.replace("{key}", self.expr(tgt.slice)).replace("{value}", self.opt(s.value))), False
+                rule = rules["%s[]=" % dotted(tgt.value)]
+                var, t = rule[0], rule[1]
+                fillt = lambda: t.replace("{key}", self.expr(tgt.slice)).replace("{value}", self.opt(s.value))
+                if len(rule) > 2 and rule[2]:
+                    return var, (lambda: "py_v"), fillt()        # the store itself may raise: bind its result
+                return var, fillt, False
             if isinstance(tgt, ast.Attribute) and dotted(tgt) is not None and "%s=" % dotted(tgt) in rules:
                 var, t = rules["%s=" % dotted(tgt)]
                 return var, (lambda: t.replace("{value}", self.expr(s.value)) if "{value}" in t else t), False
@@ -447,6 +451,16 @@ class Fn:
             n = self.ident(s.target.id)
             if s.target.id not in self.locals: raise Unsupported("augmented assignment to unbound %s" % n)
             return "(let %s := (%s %s %s)\n %s)" % (n, n, ops[type(s.op)], self.expr(s.value), self.block(rest, rest_value, in_loop))
+        if isinstance(s, ast.If) and isinstance(s.test, ast.Call) and dotted(s.test.func) in self.spec.get("raising_conditions", {}):
+            # `if f(...):` where f may raise: evaluate it first, then branch on the value
+            if self.ret_mode != "except": raise Unsupported("a raising call in a function bound as total")
+            kw = {k.arg: k.value for k in s.test.keywords}
+            call = self.fill(self.spec["raising_conditions"][dotted(s.test.func)], None, s.test.args, kw)
+            saved = set(self.locals)
+            b = self.block(s.body + rest, rest_value, in_loop)
+            self.locals = set(saved)
+            o = self.block(s.orelse + rest, rest_value, in_loop)
+            return "(Except.bind %s (fun py_c =>\n (if py_c = true then\n %s\n else\n %s)))" % (call, b, o)
         if isinstance(s, ast.If):
             c = self.cond(s.test)
             tb, te = terminates(s.body), terminates(s.orelse) if s.orelse else False
